@@ -139,6 +139,10 @@ func c08UnaryNil(c c08Case, o *Outcome) *Outcome {
 		if c.NilKind == "typed" {
 			return (*pb.Message)(nil), nil
 		}
+		if c.NilKind == "status" && c.NilCode == 0 {
+			// a failure whose own status claims OK (an application error type with a gap in its code table)
+			return nil, okStatusErr{}
+		}
 		if c.NilKind == "status" {
 			return nil, status.Error(codes.Code(c.NilCode), c.NilMsg)
 		}
@@ -195,6 +199,9 @@ func c08UnaryNil(c c08Case, o *Outcome) *Outcome {
 	}
 	if err == nil {
 		return o.failf("%s: unary handler returned a nil (%s) response and nil error; client reports success with %v", c.Carrier, c.NilKind, out)
+	}
+	if c.NilKind == "status" && c.NilCode == 0 {
+		return o // the handler's own error claims OK: any failure will do (as in C02)
 	}
 	if st, ok := status.FromError(err); !ok || st.Code() == codes.OK {
 		return o.failf("%s: nil response reported as %T %v, not a non-OK status", c.Carrier, err, err)
@@ -353,7 +360,7 @@ func genC08(t *rapid.T) c08Case {
 		if c.Enc == "proto" && rapid.Bool().Draw(t, "nilstatus") {
 			// no response because the handler failed: whatever its message looks like, never success
 			c.NilKind = "status"
-			c.NilCode = rapid.Uint32Range(1, 16).Draw(t, "nilcode")
+			c.NilCode = rapid.Uint32Range(0, 16).Draw(t, "nilcode") // 0: an error whose GRPCStatus() says OK
 			c.NilMsg = rapid.SampledFrom([]string{"failed", "lookup failed: connection refused", "a:b:c", "trail:", ":lead", "x: 5", "0:OK", "12", "0", ""}).Draw(t, "nilmsg")
 		}
 		return c
